@@ -1038,3 +1038,83 @@ class GowinOsc(Family):
     def _dev(self, pll):
         P, O, I, of = inst_params(pll, self.prims)
         return P.get("DEVICE")
+
+
+# =====================================================================================================================
+class GateMate(Family):
+    """GateMatePLL (CC_PLL): no divider search - the primitive receives REF_CLK / OUT_CLK in MHz and the place&route tool
+    derives the dividers.  What the helper computes is the base frequency (the lowest request) and the CLK180/CLK270
+    doubler flags.  Model: source = base frequency, 'divider' 1 on every port, 1 or 1/2 (doubler) on CLK180/CLK270,
+    margin 0.  Request: outputs (f, phase in {0, 90, 180, 270}, 0); the phase selects the port."""
+    prims = ("CC_PLL",)
+
+    def variants(self):
+        return [(m, dict(perf_mode=m)) for m in ("undefined", "lowpower", "economy", "speed")]
+
+    def drive(self, variant, req, timeout=60):
+        r = Result()
+        _tracer.classname_to_objs.clear()
+        _tracer.name_to_idx.clear()
+        try:
+            with watchdog(timeout):
+                pll = self.cls(**variant[1])
+                r.pll = pll
+                r.stage = "clkin"
+                pll.register_clkin(Signal(), req.fin)
+                r.stage = "clkout"
+                self._sig = {}
+                for i, (f, p, m) in enumerate(req.outs):
+                    pll.create_clkout(ClockDomain("c20_%d" % i), f, phase=p)
+                    self._sig[p] = pll._clkouts[p][0]
+                r.stage = "search"
+                r.searched = True
+                pll.do_finalize()
+                P, O, I, of = inst_params(pll, self.prims)
+                r.config = {k: P.get(k) for k in ("REF_CLK", "OUT_CLK", "CLK180_DOUB", "CLK270_DOUB", "PERF_MD")}
+                r.stage = "done"
+        except Timeout:
+            raise
+        except Exception as e:
+            r.exc = e
+        return r
+
+    def in_range(self, pll, req):
+        return all(f <= pll._max_freq for f, p, m in req.outs)
+
+    def ref_applicable(self, pll, req):
+        ph = [p for f, p, m in req.outs]
+        if len(set(ph)) != len(ph) or any(p not in (0, 90, 180, 270) for p in ph):
+            return "two outputs on one port / unsupported phase: not a legal request"
+        return None
+
+    def model(self, pll, req):
+        base = fr(min(f for f, p, m in req.outs))
+        one = Explicit([1])
+        return Model(base, one, one, (base, base),
+                     [Out(f, 0, Explicit([1, Fr(1, 2)]) if p in (180, 270) else one) for f, p, m in req.outs],
+                     chain=lambda fin, D, M, s: [s])
+
+    def decode(self, pll, cfg, req):
+        bad = []
+        base = fr(min(f for f, p, m in req.outs))
+        try:
+            if not close(Fr(cfg["OUT_CLK"]) * 10**6, base, 1e-12):
+                bad.append(("inst.OUT_CLK", "CC_PLL.OUT_CLK = %r MHz but the lowest requested output is %g Hz" % (cfg["OUT_CLK"], float(base))))
+            if not close(Fr(cfg["REF_CLK"]) * 10**6, fr(req.fin), 1e-12):
+                bad.append(("inst.REF_CLK", "CC_PLL.REF_CLK = %r MHz but the input is %g Hz" % (cfg["REF_CLK"], req.fin)))
+        except (TypeError, ValueError, KeyError):
+            bad.append(("config.missing", "REF_CLK/OUT_CLK are not decimal strings: %r" % cfg))
+        ds = []
+        for f, p, m in req.outs:
+            ds.append(Fr(1, 2) if (p in (180, 270) and cfg.get("CLK%d_DOUB" % p) == 1) else 1)
+        return 1, 1, ds, bad
+
+    def check_instance(self, pll, cfg, req, dec):
+        P, O, I, of = inst_params(pll, self.prims)
+        bad = []
+        for f, p, m in req.outs:
+            if O.get("CLK%d" % p) is not self._sig.get(p):
+                bad.append(("inst.port", "CLK%d is not the signal of the output requested with phase %d" % (p, p)))
+        if P.get("PERF_MD") != pll._perf_mode:
+            bad.append(("inst.PERF_MD", "PERF_MD = %r" % P.get("PERF_MD")))
+        return bad
